@@ -133,7 +133,8 @@ def closed_loop(ck, rng, n_states):
         rheo = rng.choice(["maxwell", "andrade", "cpl", "ctl"])
         trunc = rng.choice([2, 6, 10])
         lmax = rng.choice([2, 3])
-        ev = np.array([e, e]) if arrform else e
+        e_other = rng.choice([0.0, 0.05, 0.2, 0.35])
+        ev = np.array([e_other, e]) if arrform else e
         kw = dict(viscosity=10 ** rng.uniform(15, 21), shear_modulus=10 ** rng.uniform(9.5, 11), rheology=rheo,
                   eccentricity=ev, orbital_frequency=n, spin_frequency=spin, max_tidal_order_l=lmax,
                   eccentricity_truncation_lvl=trunc, fixed_q=50.0, fixed_k2=0.3, fixed_dt=100.0,
@@ -149,7 +150,16 @@ def closed_loop(ck, rng, n_states):
             ck.violation({"fn": "quick_tidal_dissipation", "clause": "total", "exc": type(ex).__name__, "e": str(e)},
                          "quick_tidal_dissipation raised %s(%s) at %s" % (type(ex).__name__, str(ex)[:100], det), det)
             continue
-        pick = (lambda x: float(np.asarray(x).ravel()[0]))
+        pick = (lambda x: float(np.asarray(x).ravel()[-1]))
+        if arrform:
+            # array inputs give the same rates element-wise as scalar calls
+            for idx, es in enumerate((e_other, e)):
+                rs = quick_tidal_dissipation(M, Rr, m, g, rho, moi, **dict(kw, eccentricity=es))
+                for key in ("tidal_heating", "dUdM", "dUdw", "dUdO", "semi_major_axis_derivative", "eccentricity_derivative", "spin_rate_derivative"):
+                    va, vs = float(np.asarray(res[key]).ravel()[idx]), float(np.asarray(rs[key]).ravel()[0])
+                    if not (va == vs or abs(va - vs) <= 1e-12 * max(abs(va), abs(vs))):
+                        ck.violation({"fn": "quick_tidal_dissipation", "clause": "array_vs_scalar", "what": key},
+                                     "element %d of the array call: %s = %r, scalar call gives %r at %s" % (idx, key, va, vs, det), det)
         a = pick(res["semi_major_axis"])
         heat = pick(res["tidal_heating"])
         dadt, dedt, dsp = pick(res["semi_major_axis_derivative"]), pick(res["eccentricity_derivative"]), pick(res["spin_rate_derivative"])
@@ -195,6 +205,19 @@ def closed_loop(ck, rng, n_states):
                 ck.violation({"fn": "quick_dual_body_tidal_dissipation", "clause": "total", "exc": type(ex).__name__, "e": str(e)},
                              "quick_dual_body_tidal_dissipation raised %s(%s) at %s" % (type(ex).__name__, str(ex)[:100], det), det)
                 continue
+            # each body's part of a dual-body result equals the single-body calculation for that body (independent path)
+            for nm, (Mh, Rb, mb, gb, rb, ib, vb, sb, rhb, spb) in (("host", (m, R2, M2, g2, rho2, moi2, 1e18, 5e10, "maxwell", spin2)),
+                                                                  ("secondary", (M2, Rr, m, g, rho, moi, kw["viscosity"], kw["shear_modulus"],
+                                                                                 "andrade" if rheo in ("cpl", "ctl") else rheo, spin))):
+                ref = quick_tidal_dissipation(Mh, Rb, mb, gb, rb, ib, viscosity=vb, shear_modulus=sb, rheology=rhb, eccentricity=ev,
+                                              obliquity=obl, orbital_frequency=n, spin_frequency=spb, max_tidal_order_l=lmax,
+                                              eccentricity_truncation_lvl=trunc, use_obliquity=(obl is not None))
+                for key in ("tidal_heating", "dUdM", "dUdw", "dUdO"):
+                    va, vs = np.asarray(rd[nm][key], dtype=float).ravel(), np.asarray(ref[key], dtype=float).ravel()
+                    if va.shape != vs.shape or not np.all((va == vs) | (np.abs(va - vs) <= 1e-11 * np.maximum(np.abs(va), np.abs(vs)))):
+                        ck.violation({"fn": "quick_dual_body_tidal_dissipation", "clause": "dual_vs_single", "what": key},
+                                     "dual-body %s %s = %r, single-body calculation gives %r at %s" % (nm, key, va.tolist(), vs.tolist(), det), det)
+                        break
             from TidalPy.utilities.conversions import orbital_motion2semi_a
             a2 = float(orbital_motion2semi_a(n, M2, m))
             da2, de2 = pick(rd["semi_major_axis_derivative"]), pick(rd["eccentricity_derivative"])
